@@ -1,6 +1,7 @@
 package main
 
 import (
+	"bytes"
 	"fmt"
 	"strings"
 	"unicode/utf16"
@@ -20,6 +21,7 @@ func init() {
 	ops["mbrt"] = opMbRT
 	ops["codingsweep"] = opCodingSweep
 	ops["avail"] = opAvail
+	ops["composeauto"] = opComposeAuto
 	gens["C09"] = genC09
 	gens["C17"] = genC17
 }
@@ -247,6 +249,36 @@ func composeMismatch(c coding.DataCoding, text string, octets []byte, accepted b
 		return fmt.Sprintf(" !! C17:compose-octets-differ-from-encoder coding=%d", c)
 	}
 	return ""
+}
+
+// opComposeAuto: `composeauto <runes>` — ShortMessage.Compose picks the coding itself: whatever it stores must be the octets
+// the announced coding's own encoder gives for exactly this text; a text that encoder cannot represent must be refused, never
+// stored in an altered form (substitution characters).
+func opComposeAuto(args []string) string {
+	if len(args) != 1 {
+		return "bad-op"
+	}
+	rs, ok := parseRunes(args[0])
+	if !ok {
+		return "bad-op"
+	}
+	text := string(rs)
+	var sm pdu.ShortMessage
+	if err := sm.Compose(text); err != nil {
+		return "rejected"
+	}
+	enc := sm.DataCoding.Encoding()
+	if enc == nil {
+		return fmt.Sprintf("stored coding=%d !! C17:compose-announces-coding-without-encoder coding=%d", sm.DataCoding, sm.DataCoding)
+	}
+	want, err := enc.NewEncoder().Bytes([]byte(text))
+	if err != nil {
+		return fmt.Sprintf("stored coding=%d %s !! C17:compose-accepts-text-the-encoder-rejects coding=%d", sm.DataCoding, canon.Hex(sm.Message), sm.DataCoding)
+	}
+	if !bytes.Equal(want, sm.Message) {
+		return fmt.Sprintf("stored coding=%d %s !! C17:compose-octets-differ-from-encoder coding=%d", sm.DataCoding, canon.Hex(sm.Message), sm.DataCoding)
+	}
+	return fmt.Sprintf("stored coding=%d octets=%d", sm.DataCoding, len(sm.Message))
 }
 
 // parseMismatch: the library's own decoding entry point for a stored message (pdu.ShortMessage.Parse, which decodes by
@@ -478,6 +510,14 @@ func genC17(r *gen.Rng, tier string, emit func(string)) {
 	for _, dc := range []int{5, 13, 14} {
 		emit(fmt.Sprintf("mbrt %d 64016", dc))
 		emit(fmt.Sprintf("mbrt %d 12459,12441", dc))
+	}
+	// the coding is picked by the library (ShortMessage.Compose): single scalars across the repertoires' edges, and mixed texts
+	for _, sc := range []int{0x41, 0xE9, 0x100, 0x17E, 0x401, 0x472, 0x4FF, 0x5B0, 0x5D0, 0x5EA, 0x2017, 0x20AC, 0x3042, 0xAC00, 0x1F600, 0x60, 0xA4} {
+		emit(fmt.Sprintf("composeauto %d", sc))
+		emit(fmt.Sprintf("composeauto 68,118,%d,225,107", sc))
+	}
+	for i := 0; i < scale(tier, 300, 4000); i++ {
+		emit("composeauto " + showRunes(mixedText(r)))
 	}
 	emit("enc 8 65,256")
 	emit("enc 8 12288")
